@@ -1,6 +1,7 @@
 //! Correspondence harness: runs the real rs-tftpd code on line-protocol cases.
 mod capture;
 mod codec;
+mod multi;
 mod netloop;
 mod config;
 mod server;
@@ -25,6 +26,7 @@ fn dispatch(line: &str) -> String {
             r
         }
         "rcv" => worker::rcv_line(&toks),
+        "dupwrq" => worker::dupwrq_line(&toks),
         "req" => server::req_line(&toks),
         "cfg" => config::cfg_line(&toks),
         "loop" => {
@@ -34,6 +36,7 @@ fn dispatch(line: &str) -> String {
             r
         }
         "storm" => server::storm_line(&toks),
+        "multi" => multi::multi_line(&toks),
         _ => "bad-op".to_string(),
     }
 }
